@@ -80,6 +80,20 @@ def resolve_flag(cond, inits, depth=0):
     return cond
 
 
+def subst_inits(e, inits, depth=0):
+    """Replace references to single-assignment scalar locals by their initialiser (so `const size_t n = f(); n > k` reads
+    as `f() > k`)."""
+    if isinstance(e, list):
+        return [subst_inits(x, inits, depth) for x in e]
+    if not isinstance(e, dict):
+        return e
+    if e.get("k") == "ref" and e.get("kind") == "local" and e.get("id") in inits and depth < 3:
+        ty = (e.get("ty") or "").replace("const ", "")
+        if ty in ("size_t", "uint32_t", "int", "bool", "unsigned int", "unsigned long", "uint64_t", "auto"):
+            return subst_inits(inits[e["id"]], inits, depth + 1)
+    return {k: (subst_inits(v, inits, depth) if isinstance(v, (dict, list)) else v) for k, v in e.items()}
+
+
 def term_cond(b):
     """The condition actually evaluated at the end of block b (rightmost operand of &&/||)."""
     t = b["term"]
